@@ -448,8 +448,9 @@ void top_level_op(World& W, Choices& c)
     return;
   }
   switch (c.weighted({5, 8, 2, 2, 2, 3, 1, is_prop("C09") ? 2u : 0u, is_prop("C16") ? 3u : 0u, is_prop("C05") ? 2u : 0u, is_prop("C16") ? 2u : 0u,
-                      is_prop("C08") ? 2u : 0u}))
+                      is_prop("C08") ? 2u : 0u, (is_prop("C05") && !kBounded) ? 2u : 0u}))
   {
+  case 12: op_shrink_chain_then_pair(W); break;
   case 11:
     // C08: backtrace control requests (init_backtrace / flush_backtrace) are re-submitted by the frontend until the queue
     // takes them: never dropped, never counted as dropped. No backtrace statements are logged, so they produce no output.
